@@ -175,7 +175,9 @@ def make_sources(rng, zones, quick):
     out.append(("1key", [("AAA", zones[0])]))
     out.append(("2keys", [("AAA", zones[0]), ("AAB", zones[1])]))
     out.append(("prefix-keys", [(k, rng.choice(zones[:50])) for k in sorted({"A", "AB", "ABC", "ABCD", "ABCDE", "ABD", "B", "BA", "ABCDEFGH", "ABCDEFGHI"})]))
-    pz = ["Asia/Ho", "Asia/Ho_Chi_Minh", "Asia/Hong_Kong", "America/Indiana", "America/Indiana/Knox", "America/Indianapolis"]
+    # the longer name is pooled first, the shorter one that is its prefix afterwards
+    pz = ["Asia/Ho_Chi_Minh", "Asia/Ho", "America/Indiana/Knox", "America/Indiana", "America/Indianapolis", "Asia/Hong_Kong",
+          "Etc/GMT-10", "Etc/GMT-1", "Etc/GMT"]
     out.append(("prefix-zones", [(k, pz[i % len(pz)]) for i, k in enumerate(keys(24, [3]))]))
     out.append(("iata-like", [(k, rng.choice(zones)) for k in keys(300 if quick else 3000, [3])]))
     out.append(("icao-like", [(k, rng.choice(zones)) for k in keys(300 if quick else 3000, [4])]))
